@@ -748,6 +748,9 @@ def const_value(tree, name):
             a, b = ev(e.left), ev(e.right)
             if isinstance(a, list) and isinstance(b, list):
                 return a + b
+        if isinstance(e, ast.Call) and isinstance(e.func, ast.Attribute) and e.func.attr == 'split' and not e.args \
+                and not e.keywords and isinstance(e.func.value, ast.Constant) and isinstance(e.func.value.value, str):
+            return e.func.value.value.split()
         if isinstance(e, ast.Call) and isinstance(e.func, ast.Name) and e.func.id in ('set', 'frozenset', 'tuple', 'list') \
                 and len(e.args) == 1 and not e.keywords:
             v = ev(e.args[0])
@@ -811,6 +814,11 @@ UNITS = {
                          'Parameter.VAR_KEYWORD': ('(4)%Z', 'Z', [])},
                  ret=('opt', 'Z')),
         ]),
+    # C06: the parent types in which inline parenthesises the replacement
+    'C06_rule': dict(
+        file='jedi/api/refactoring/__init__.py',
+        consts=['EXPRESSION_PARTS', '_INLINE_NEEDS_PARENTHESES'],
+        funcs=[]),
     # C20: sys.path de-duplication
     'C20_dedupe': dict(
         file='jedi/api/project.py',
